@@ -11,6 +11,57 @@ Facets
   crisp       exact arithmetic (integer coordinates, dyadic diameters / cut-offs): particles sitting exactly on the
               mobility threshold are neither slow nor fast (strict '<' / '>'), in relaxation (both classes) and sq4.
 
+  size_boundaries (round 3) ONE size axis on a block boundary B-1, B, B+1, 2B-1, 2B+1, B+B//3: particles N = 31..513
+              (relaxation of both classes, with / without a neighbour file; sq4, in half of the cases with the whole
+              system in the mobile subset so that the SUBSET size sits on the boundary), frames T = 31..129 (relaxation:
+              all T(T-1)/2 frame pairs and T-1 lags; sq4: T - lag origins), neighbours per particle up to 31..129
+              (cage-relative), sq4 with hundreds of wave vectors.  Arrays come from numpy's generator seeded by a
+              Hypothesis-drawn integer; references and tolerances are those of linear / log / sq4.
+              size_boundaries_deep (thorough only): N up to 2049, T up to 401, cn up to 257.
+  call_history (round 3) two Dynamics objects on same-shaped trajectories, 3..7 drawn calls (relaxation with / without
+              the selection, another qconst; sq4 at two lags) alternating between them; every result equals its
+              reference at call time and ALL returned DataFrames, kept alive, are bit-identical to the copies taken at
+              return when the case ends (results handed out earlier must stay what they were).
+Classes added in round 3 inside the existing facets: outputfile written and compared with the returned table
+(relaxation of both classes, sq4); keywords equal to their documented default left out (dt, a, cal_type, neighborfile,
+max_neighbors, ppp, diameters, qconst, condition, outputfile); three calls on one object in check_relaxation (the third
+repeats the first) with all three frames re-compared at the end; sq4 twice on one object; t given as a rounded decimal
+literal (0.3 for an interval of 0.1); N = 1; neighbour files with fixed-k lists / ragged lists whose first and last
+particle carry the largest cn (measured: cn-varies-within-a-frame, nb-directed, cn-particle0-below-max); crisp cases in
+the wrapped-only mode and with value-equal arguments in other representations (int64 coordinates / cell, labels as
+float64 / int32, ppp as bool / float, integer diameters, numpy-integer keys).
+
+CLAUSES (statement + quantifier of C06, split; deciding assertion; populated class tags of evidence/C06.json)
+  1 any trajectory, T >= 2 frames            all facets          kind-ballistic/-diffusive/-arrested/-mixed/-drift, T2..T7,
+                                                                 size-boundary-T=31..129, N=1, N<=4 .. N>12, size-boundary-N=*
+       WAS WEAK: T <= 7, N <= 12 -> size classes; N = 1 added
+  2 time step dt, time k*interval*dt         near(t, 1e-12 rel)  t0-zero/-nonzero, default-omitted:dt
+  3 diameters map                            q_j = qconst/sigma_j and (a sigma_j)^2 in the reference
+                                                                 sigma-map/-unit, labels-gapped/-extra-keys, argrep-int-diameters
+  4 mobility cut-off, slow / fast            Qt in [definite, definite+ambiguous]; strictness on exact ties (crisp)
+                                                                 slow fast Q-mixed on-threshold>0
+  5 particle selection (per-frame masks)     reference selects with the ORIGIN frame's mask   sel-none/-const/-equal/-free
+  6 cage-relative neighbour lists            reference subtracts the mean over the origin frame's list
+                                                                 nb-file nb-per-frame cn-varies-within-a-frame nb-directed
+                                                                 cn-equal-for-all-particles cn-ragged-with-full-ends cn-max>31
+       WAS WEAK: cn <= 5 -> size axis cn (up to 129 neighbours, max_neighbors = max cn, max cn + 1, 200)
+  7 row k = average over ALL frame pairs k intervals apart of isf, Qt, msd
+                                             compare_rows: isf, msd (rtol 1e-9 + propagated), Qt interval; every lag
+                                                                 Q-varies-between-origins, size-axis-T
+  8 chi4 = N(<Q^2> - <Q>^2)                  near(X4_Qt) when the selected count is the same at all origins   chi4>0 chi4-nonzero
+  9 alpha2 with the dimensional prefactor    near(alpha2) where <r^2> > 0                     d2 d3 alpha2>0
+ 10 log variant: first frame the only origin log facet, crisp, size (variant-log)
+ 11 wrapped + periodic flags == unwrapped within half a box      wrap_equiv     frames-with-wrapped-particles>0 maxfrac>=0.3
+ 12 S4 = S(q) of the slow / fast subset averaged over origins    sq4, crisp, size axes sq4-N / sq4-T / sq4-M, call_history
+                                                                 lag1..5 origins1..4 t-exact/-below/-above t-decimal
+                                                                 subset-partial sq4-subset=N-at-origin-0 sq4-vectors>400
+ 13 modes {xu only, x only, both}            mode-xu / mode-x / mode-both in every facet (crisp: now also mode-x)
+ 14 observed at the returned DataFrames; CSV on request          outputfile-written (WAS NEVER VARIED: flag audit)
+ 15 histories (second evaluation, several objects)               call_history, three calls in check_relaxation, sq4 twice
+Not asserted on purpose: chi4 when the selected count differs between origins (N undefined); alpha2 where <r^2> = 0;
+frame-varying boxes (which frame's cell defines the minimum image is not stated); linear sampling with uneven or
+repeated timesteps (the class documents 'constant time interval required'); sq4 with an empty mobile subset.
+
 Preconditions imposed by the code and respected by the generators (sound-first):
   * type ids 1..K all mapped by `diameters` (dynamics.py:148), same N / box / types in all frames;
   * only-wrapped mode needs ppp.any() (dynamics.py:137);
@@ -38,7 +89,11 @@ from PyMatterSim.dynamic.dynamics import Dynamics, LogDynamics
 RULE = ("generated trajectories (ballistic / diffusive / arrested / mixed / drift) of T 2..7 frames, N 2..12, 2D/3D, "
         "ortho + LAMMPS-triclinic cells, modes {xu only, x only, both}, K 1..3 with a diameters map, cut-off factor `a` "
         "placed in a gap of the realised dr^2/sigma^2 values, slow/fast, selections {none, constant, equal-count varying, "
-        "free varying}, with/without a synthetic multi-frame neighbour file. non-trivial = (T >= 3 and the overlap Q "
+        "free varying}, with/without a synthetic multi-frame neighbour file (ragged, fixed-k, directed lists); "
+        "output files, omitted default keywords, three calls per object; size boundaries (N = 31..513, T = 31..129, up "
+        "to 129 neighbours per particle, sq4 subsets and wave-vector sets of hundreds; thorough N <= 2049, T <= 401); "
+        "call histories on two live objects with all returned frames re-compared at the end. "
+        "non-trivial = (T >= 3 and the overlap Q "
         "differs between origins at some lag) or a selection or a neighbour file is active")
 ASSUMPTIONS = [
     "a per-frame selection applies to a frame pair through the mask of the ORIGIN frame (same convention as the "
@@ -52,13 +107,28 @@ ASSUMPTIONS = [
     "(the implementation's set, as in C04); per-vector values are rounded to 8 decimals by the library, so S4 is "
     "compared with atol 1e-8; cases where two distinct |q| are closer than 2e-8 are skipped (tag q-amb)",
     "coordinate error bound per displacement component: 1e-13 * (largest coordinate difference or box edge)",
+    "a CSV written on request holds the returned table (1e-6 relative + 1e-9; the text format is not promised; NaN may "
+    "be written as an empty field)",
+    "a DataFrame returned earlier is not changed by later calls on the same or on another object (bit-for-bit against "
+    "a copy taken at return)",
+    "a keyword left out means its documented default (dt 0.002, a 0.3, cal_type 'slow', neighborfile '', max_neighbors "
+    "30, ppp zeros(3), diameters {1: 1.0, 2: 1.0}, qconst 2 pi, condition None, outputfile '')",
+    "size classes place the cut-off at a quantile of the realised displacements of three sampled frame pairs, not in a "
+    "gap of all of them: decisions closer than 1e-9 fall under the reference's interval rule",
+    "value-equal representations (crisp facet): int64 coordinates / cell, labels float64 / int32, ppp bool / float, "
+    "integer diameters, numpy-integer keys; float32 coordinates and a list ppp are out of domain (different arithmetic "
+    "/ AttributeError on the unchanged tree)",
 ]
 MANIFEST = {
     "text": "Dynamics.relaxation / LogDynamics.relaxation rows (t, isf, Qt, X4_Qt, msd, alpha2) equal an explicit "
             "all-origins (resp. single-origin) reference for generated trajectories in every mode (xu, x with minimum "
             "image, both), with selections and cage-relative neighbour files; wrapped == unwrapped under the half-box "
             "bound; Dynamics.sq4 equals the origin-averaged structure factor of the slow/fast subset; strictness of the "
-            "mobility threshold on exact ties. Facets: linear, linear_cage, log, wrap_equiv, sq4, crisp.",
+            "mobility threshold on exact ties. Round 3: size boundaries (particles 31..513, frames 31..129, up to 129 "
+            "neighbours per particle, sq4 subsets / wave-vector sets of hundreds; thorough tier larger), output files, "
+            "omitted default keywords, value-equal argument representations, call histories on two live objects with "
+            "every returned DataFrame re-compared bit for bit at the end. Facets: linear, linear_cage, log, wrap_equiv, "
+            "sq4, crisp, size_boundaries, size_boundaries_deep, call_history.",
     "note": "trusted base: pbt/ref/dynref.py + pbt/ref/geom.py (numpy); origin-frame convention for frame-varying "
             "selections; half-open default wave-vector set taken from the implementation; orthogonal cells only for sq4; "
             "same box in all frames; neighbour lists never truncated by max_neighbors.",
@@ -145,6 +215,15 @@ def neighbours_st(draw, frames, N):
     same = draw(st.integers(0, 4)) == 0
     keys = draw(hnp.arrays(np.int16, (frames, N, N), elements=st.integers(0, 999), fill=st.nothing()))
     cn = draw(hnp.arrays(np.int8, (frames, N), elements=st.integers(1, cmax), fill=st.nothing()))
+    # batch-wide classes (EXTENSION_3 class 4): fixed-k lists (every particle of every frame has the same coordination
+    # number -- the rectangular array a vectorised gather is exact for) next to ragged ones; in the ragged class
+    # particles 0 and N-1 often carry the frame's largest cn (a guard that looks at the ends only)
+    shape = draw(st.sampled_from(["ragged", "ragged", "ragged", "fixed-k", "ends-full"]))
+    if shape == "fixed-k":
+        cn[:] = draw(st.integers(1, cmax))
+    elif shape == "ends-full":
+        cn[:, 0] = cn.max(axis=1)
+        cn[:, -1] = cn.max(axis=1)
     if same:
         keys[:] = keys[0]
         cn[:] = cn[0]
@@ -158,7 +237,7 @@ def neighbours_st(draw, frames, N):
     roworder = [list(draw(st.permutations(range(N)))) if draw(st.booleans()) else list(range(N)) for _ in range(frames)]
     maxcn = int(cn.max())
     maxn = draw(st.sampled_from([maxcn, maxcn + 1, 30, 100]))
-    return {"lists": lists, "roworder": roworder, "max_neighbors": maxn, "same": bool(same),
+    return {"lists": lists, "roworder": roworder, "max_neighbors": maxn, "same": bool(same), "shape": shape,
             "sep": draw(st.sampled_from([" ", "  ", "\t"]))}
 
 
@@ -178,15 +257,21 @@ def sigma_of(case):
 
 @st.composite
 def case_st(draw, variant="lin", cage="no", modes=("xu", "x", "both"), cells=("ortho", "tri"), bounded=False,
-            sq4=False, tmax=7, nmax=12, selmodes=("none", "none", "const", "equal", "free")):
+            sq4=False, tmax=7, nmax=12, selmodes=("none", "none", "const", "equal", "free"), nmin=2):
     d = draw(st.sampled_from([2, 3]))
     cell = draw(cell_st(d, draw(st.sampled_from(list(cells))), lmin=2.0, lmax=30.0))
     if sq4 and draw(st.integers(0, 2)) == 0:  # cubic / square boxes give large shells of equal |q|
         cell["H"] = np.eye(d) * cell["H"][0, 0]
+    if cell["kind"] == "tri" and draw(st.integers(0, 3)) == 0:
+        # EXTENSION_2 class 10: a tilted cell after an axis permutation is no longer lower triangular; the wrapped-only
+        # mode takes the minimum image from snapshot.hmatrix whatever its shape
+        perm = list(draw(st.permutations(range(d))))
+        if perm != sorted(perm):
+            cell = dict(cell, H=cell["H"][perm][:, perm].copy(), lo=cell["lo"][perm].copy(), kind="general")
     H, lo = cell["H"], cell["lo"]
     Lmin = float(np.diag(H).min())
     K = draw(st.integers(1, 3))
-    N = draw(st.integers(max(2, K), nmax))
+    N = draw(st.integers(max(nmin, K), nmax))
     T = draw(st.integers(2, tmax)) if not sq4 else draw(st.sampled_from([2, 3, 4, 5, 6, 4, 5, 6]))
     types = draw(types_st(N, K))
     if draw(st.integers(0, 3)) == 0:
@@ -240,12 +325,13 @@ def case_st(draw, variant="lin", cage="no", modes=("xu", "x", "both"), cells=("o
     # time axis
     t0 = draw(st.one_of(st.just(0), st.integers(0, 10**7)))
     if variant == "log":
-        incs = draw(st.lists(st.integers(1, 5000), min_size=T - 1, max_size=T - 1))
+        # increments of 0: the same timestep written twice (a restart) -- the log variant reports (ts_k - ts_0) dt
+        incs = draw(st.lists(st.one_of(st.integers(1, 5000), st.integers(0, 3)), min_size=T - 1, max_size=T - 1))
         timesteps = [t0] + [t0 + int(s) for s in np.cumsum(incs)]
     else:
         interval = draw(st.integers(1, 5000))
         timesteps = [t0 + k * interval for k in range(T)]
-    dtmd = draw(nice_float(0.0005, 0.05))
+    dtmd = draw(st.one_of(st.just(0.002), nice_float(0.0005, 0.05), nice_float(0.0005, 0.05)))
     # selection
     if variant == "log":
         selmode, mask = draw(selection_st(1, N, [m for m in selmodes if m in ("none", "const")] or ["none"]))
@@ -254,7 +340,7 @@ def case_st(draw, variant="lin", cage="no", modes=("xu", "x", "both"), cells=("o
         selmode, cond = draw(selection_st(T, N, selmodes))
     # neighbour file
     nb = None
-    if cage == "yes" or (cage == "maybe" and draw(st.booleans())):
+    if N >= 2 and (cage == "yes" or (cage == "maybe" and draw(st.booleans()))):
         frames = T if (variant != "log" or draw(st.booleans())) else 1
         nb = draw(neighbours_st(frames, N))
     cal_type = draw(st.sampled_from(["slow", "fast"]))
@@ -263,7 +349,9 @@ def case_st(draw, variant="lin", cage="no", modes=("xu", "x", "both"), cells=("o
             "selmode": selmode, "nb": nb, "variant": variant, "bounded": bounded,
             "max_neighbors": nb["max_neighbors"] if nb else draw(st.sampled_from([30, 100])),
             "nbarg": draw(st.sampled_from(["", None])),
-            "qconst": draw(st.one_of(st.just(2 * np.pi), nice_float(0.5, 15.0)))}
+            "qconst": draw(st.one_of(st.just(2 * np.pi), nice_float(0.5, 15.0))),
+            "outfile": draw(st.sampled_from([False, False, True])),
+            "defaults": draw(st.sampled_from([False, False, True]))}
     # cut-off factor in a gap of the realised values
     sigma = sigma_of(case)
     u = draw(fl(0.0, 1.0, exclude_max=True))
@@ -284,8 +372,14 @@ def case_st(draw, variant="lin", cage="no", modes=("xu", "x", "both"), cells=("o
         Lmax = float(np.diag(H).max())
         # t = (lag + delta) sampling intervals with |delta| <= 0.4, so that round() is unambiguous
         delta = draw(st.sampled_from([0.0, 0.0, -0.4, 0.4, -0.2, 0.2])) if draw(st.booleans()) else draw(fl(-0.4, 0.4))
-        case.update(lag=lag, numofq=numofq, qrange=(numofq + 0.5) * np.pi / Lmax, tdelta=delta,
-                    t=(lag + delta) * ((timesteps[1] - timesteps[0]) * dtmd), cond_float=draw(st.booleans()))
+        t = (lag + delta) * ((timesteps[1] - timesteps[0]) * dtmd)
+        # the characteristic time as a user types it (a decimal literal read off a table: 0.3 for an interval of 0.1,
+        # whose floating-point quotient is 2.9999999999999996) next to the exact product
+        tform = draw(st.sampled_from(["product", "product", "decimal"]))
+        if tform == "decimal":
+            t = round(t, 10)
+        case.update(lag=lag, numofq=numofq, qrange=(numofq + 0.5) * np.pi / Lmax, tdelta=delta, tform=tform,
+                    t=t, cond_float=draw(st.booleans()))
     else:
         modes_a = ["x", "xu"] if bounded else [mode]
         rat = []
@@ -329,7 +423,10 @@ def crisp_st(draw):
             "amp": 0.0, "mode": draw(st.sampled_from(["xu", "both"])), "dtmd": draw(st.sampled_from([0.5, 0.25, 0.002])),
             "sig": sig, "cal_type": draw(st.sampled_from(["slow", "fast"])), "cond": None, "selmode": "none", "nb": None,
             "variant": "lin", "bounded": False, "max_neighbors": 30, "nbarg": "", "qconst": 2 * np.pi,
-            "numofq": draw(st.integers(2, 8 if d == 2 else 5)), "lag": 1, "cond_float": False}
+            "numofq": draw(st.integers(2, 8 if d == 2 else 5)), "lag": 1, "cond_float": False,
+            "argrep": draw(st.sampled_from([None, None, None] + ARGREPS))}
+    if case["argrep"] in ("ppp-bool", "ppp-float", "int-box", "int-positions+box"):
+        case["mode"] = draw(st.sampled_from(["x", "xu", "both"]))  # the wrapped-only mode reads ppp and the cell
     case["qrange"] = (case["numofq"] + 0.5) * np.pi / 16.0
     case["t"] = interval * case["dtmd"]
     # squared cut-off equal to a realised squared lag-1 displacement of some particle, expressed through its sigma
@@ -356,16 +453,122 @@ def write_neighbour_file(case):
     return fn
 
 
+# Representations of value-equal arguments (EXTENSION_2 class 3 / EXTENSION_3 class 2), probed on the unchanged tree
+# with integer-valued data: all give the float64 results bit for bit.  Out of domain: float32 coordinates (the
+# displacements are then formed in single precision: different numbers), ppp as a Python list (AttributeError in the
+# wrapped-only mode).
+ARGREPS = ["int-positions", "int-positions+box", "int-box", "types-float64", "types-int32", "ppp-bool", "ppp-float",
+           "int-diameters", "numpy-int-keys"]
+# documented defaults of Dynamics / LogDynamics (dynamics.py signature); a keyword whose value equals its default is
+# left out in the class `defaults` (EXTENSION_2 class 1: the default itself is an option value)
+CTOR_DEFAULTS = {"dt": 0.002, "a": 0.3, "cal_type": "slow", "neighborfile": "", "max_neighbors": 30}
+
+
+def _represent_snapshots(snaps, rep):
+    import dataclasses
+
+    out = []
+    for s_ in snaps.snapshots:
+        f = {}
+        if rep in ("int-positions", "int-positions+box"):
+            f["positions"] = s_.positions.astype(np.int64)
+        if rep in ("int-box", "int-positions+box"):
+            f.update(hmatrix=s_.hmatrix.astype(np.int64), boxlength=s_.boxlength.astype(np.int64),
+                     boxbounds=s_.boxbounds.astype(np.int64))
+        if rep.startswith("types-"):
+            f["particle_type"] = s_.particle_type.astype(np.dtype(rep.split("-")[1]))
+        for k, v in f.items():
+            if not np.array_equal(np.asarray(v, dtype=float), np.asarray(getattr(s_, k), dtype=float)):
+                raise RuntimeError(f"harness: representation {rep} changes the values of {k}")
+        out.append(dataclasses.replace(s_, **f))
+    return type(snaps)(nsnapshots=len(out), snapshots=out)
+
+
 def make_dynamics(case, mode=None, variant=None):
     mode = mode or case["mode"]
     variant = variant or case["variant"]
     base = {"cell": case["cell"], "types": case["types"], "timesteps": case["timesteps"]}
     xu = snapshots_from(dict(base, pos=case["pos"])) if mode in ("xu", "both") else None
     x = snapshots_from(dict(base, pos=case["posw"])) if mode in ("x", "both") else None
+    rep = case.get("argrep")
+    ppp = case["ppp"].copy()
+    diam = dict(case["sig"])
+    if rep:
+        xu = _represent_snapshots(xu, rep) if xu is not None else None
+        x = _represent_snapshots(x, rep) if x is not None else None
+        if rep == "ppp-bool":
+            ppp = ppp.astype(bool)
+        elif rep == "ppp-float":
+            ppp = ppp.astype(float)
+        elif rep == "int-diameters":
+            if any(float(v) != int(v) for v in diam.values()):
+                raise RuntimeError("harness: int-diameters needs integer diameters")
+            diam = {k: int(v) for k, v in diam.items()}
+        elif rep == "numpy-int-keys":
+            diam = {np.int64(k): v for k, v in diam.items()}
     nbfile = write_neighbour_file(case) if case["nb"] is not None else case["nbarg"]
     cls = LogDynamics if variant == "log" else Dynamics
-    return cls(xu_snapshots=xu, x_snapshots=x, dt=case["dtmd"], ppp=case["ppp"].copy(), diameters=dict(case["sig"]),
-               a=case["a"], cal_type=case["cal_type"], neighborfile=nbfile, max_neighbors=case["max_neighbors"])
+    kw = dict(xu_snapshots=xu, x_snapshots=x, dt=case["dtmd"], ppp=ppp, diameters=diam,
+              a=case["a"], cal_type=case["cal_type"], neighborfile=nbfile, max_neighbors=case["max_neighbors"])
+    omitted = []
+    if case.get("defaults"):
+        for k, v in CTOR_DEFAULTS.items():
+            if type(kw[k]) is type(v) and kw[k] == v:
+                del kw[k]
+                omitted.append(k)
+        d = case["d"]
+        if d == 3 and not np.any(ppp):          # default ppp = np.array([0, 0, 0])
+            del kw["ppp"]
+            omitted.append("ppp")
+        present = {int(t) for t in np.asarray(case["types"]).tolist()}
+        if present <= {1, 2} and all(float(diam[k]) == 1.0 for k in present):   # default diameters {1: 1.0, 2: 1.0}
+            del kw["diameters"]
+            omitted.append("diameters")
+    dyn = cls(**kw)
+    dyn.verif_omitted = omitted
+    return dyn
+
+
+def relaxation_kwargs(case, dyn, cond, outputfile=""):
+    """Keywords of relaxation(); in the class `defaults` every keyword equal to its documented default is left out."""
+    kw = {"qconst": case["qconst"], "condition": cond, "outputfile": outputfile}
+    if case.get("defaults"):
+        if kw["qconst"] == 2 * np.pi:
+            del kw["qconst"]
+            dyn.verif_omitted.append("qconst")
+        if cond is None:
+            del kw["condition"]
+            dyn.verif_omitted.append("condition")
+        if outputfile == "":
+            del kw["outputfile"]
+            dyn.verif_omitted.append("outputfile")
+    return kw
+
+
+def read_csv_table(name, path, cols):
+    require(os.path.exists(path), f"{name}: outputfile {os.path.basename(path)} was not written")
+    with open(path, encoding="utf-8") as fh:
+        lines = [ln.strip() for ln in fh if ln.strip()]
+    require(len(lines) >= 1 and lines[0].split(",") == list(cols), f"{name}: header {lines[:1]!r} != {','.join(cols)!r}")
+    try:
+        # pandas writes NaN (alpha2 of a trajectory that does not move: 0/0) as an empty field
+        data = np.array([[float(x_) if x_ else np.nan for x_ in ln.split(",")] for ln in lines[1:]],
+                        dtype=float).reshape(-1, len(cols))
+    except ValueError as e:
+        raise Violation(f"{name}: unparsable / ragged table ({e})")
+    return data
+
+
+def compare_csv(name, path, got, cols):
+    """The CSV written on request holds the returned table (the statement's observation points list the returned
+    frames; the file is their documented copy).  Text formatting is not promised: 1e-6 relative + 1e-9."""
+    data = read_csv_table(name, path, cols)
+    want = np.column_stack([got[c] for c in cols])
+    require(data.shape == want.shape, f"{name}: file has shape {data.shape}, returned table {want.shape}")
+    both_nan = np.isnan(data) & np.isnan(want)
+    bad = ~both_nan & ~(np.abs(data - want) <= 1e-9 + 1e-6 * np.abs(want))
+    require(not bad.any(), lambda: f"{name}: file differs from the returned table at {np.argwhere(bad)[0].tolist()}: "
+                                   f"{data[bad][0]!r} vs {want[bad][0]!r}")
 
 
 def table(name, df, T):
@@ -427,15 +630,20 @@ def common_tags(case, rows, stats):
     T = len(case["pos"])
     N = len(case["types"])
     tags = [f"d{case['d']}", case["cell"]["kind"], "kind-" + case["kind"], "mode-" + case["mode"], case["cal_type"],
-            f"K{case['K']}", f"T{T}", "N<=4" if N <= 4 else ("N5-8" if N <= 8 else "N9-12"), "sel-" + case["selmode"],
+            f"K{case['K']}", f"T{T}" if T <= 7 else "T>7",
+            "N=1" if N == 1 else ("N<=4" if N <= 4 else ("N5-8" if N <= 8 else ("N9-12" if N <= 12 else "N>12"))),
+            "sel-" + case["selmode"],
             "nb-file" if case["nb"] is not None else "nb-none",
             "ppp-full" if np.all(case["ppp"]) else ("ppp-none" if not np.any(case["ppp"]) else "ppp-partial"),
             "sigma-unit" if all(v == 1.0 for v in case["sig"].values()) else "sigma-map",
             "labels-" + case.get("labmode", "1..K"),
             "t0-zero" if case["timesteps"][0] == 0 else "t0-nonzero"]
+    if case["variant"] == "log" and len(set(case["timesteps"])) < len(case["timesteps"]):
+        tags.append("log-timestep-repeated")
     if case["nb"] is not None:
         tags.append("nb-same-all-frames" if case["nb"]["same"] else "nb-per-frame")
         tags.append("nb-shuffled-rows" if any(o != sorted(o) for o in case["nb"]["roworder"]) else "nb-ordered-rows")
+        tags += neighbour_tags(case["nb"]["lists"])
     if rows is not None:
         if any(r["Qvaries"] for r in rows):
             tags.append("Q-varies-between-origins")
@@ -449,12 +657,39 @@ def common_tags(case, rows, stats):
     return tags
 
 
+def neighbour_tags(lists):
+    """Measured classes of a synthetic neighbour file (EXTENSION_1 class 2, EXTENSION_2 class 8)."""
+    tags = []
+    cns = [[len(nb) for nb in fr] for fr in lists]
+    varies = any(len(set(c)) > 1 for c in cns)
+    tags.append("cn-varies-within-a-frame" if varies else "cn-equal-for-all-particles")
+    if varies and any(c[0] == max(c) and c[-1] == max(c) for c in cns if len(set(c)) > 1):
+        tags.append("cn-ragged-with-full-ends")
+    if varies and any(c[0] < max(c) for c in cns):
+        tags.append("cn-particle0-below-max")
+    directed = any(i not in fr[j] for fr in lists for i, nb in enumerate(fr) for j in nb)
+    tags.append("nb-directed" if directed else "nb-symmetric")
+    cmax = max(max(c) for c in cns)
+    tags.append("cn-max<=5" if cmax <= 5 else ("cn-max<=31" if cmax <= 31 else "cn-max>31"))
+    return tags
+
+
 def is_nontrivial(case, rows):
     T = len(case["pos"])
     return bool((T >= 3 and any(r["Qvaries"] for r in rows)) or case["cond"] is not None or case["nb"] is not None)
 
 
 # ----------------------------------------------------------------------------- checks
+
+
+def frame_copy(df):
+    """Bit-exact copy (column names + values) of a returned DataFrame, taken at the moment of return."""
+    return list(df.columns), np.array(df.to_numpy(dtype=float), copy=True)
+
+
+def frame_unchanged(df, snap):
+    now = df.to_numpy(dtype=float)
+    return list(df.columns) == snap[0] and now.shape == snap[1].shape and np.array_equal(now, snap[1], equal_nan=True)
 
 
 def check_relaxation(case):
@@ -468,12 +703,19 @@ def check_relaxation(case):
         dynref.time_axis_linear(case["timesteps"], case["dtmd"])
     dyn = make_dynamics(case)
     cond = None if case["cond"] is None else case["cond"].copy()
+    outname = "c06_relaxation.csv" if case.get("outfile") else ""
     with np.errstate(all="ignore"):
-        df = dyn.relaxation(qconst=case["qconst"], condition=cond, outputfile="")
+        df = dyn.relaxation(**relaxation_kwargs(case, dyn, cond, outname))
     stats = new_stats()
-    compare_rows("relaxation", table("relaxation", df, T), rows, tref, stats)
+    got = table("relaxation", df, T)
+    compare_rows("relaxation", got, rows, tref, stats)
+    held = [("first call", df, frame_copy(df))]
+    if outname:
+        compare_csv("relaxation outputfile", os.path.join(os.getcwd(), outname), got, COLS)
     if cond is not None:
         require(np.array_equal(cond, case["cond"]), "relaxation modified the caller's condition array")
+    if case.get("single_call"):  # long trajectories (size classes): one evaluation
+        return _finish_relaxation(case, dyn, rows, stats, held, outname)
     # second call on the same object with the complementary way of saying 'everything' / a selection:
     # an all-True selection must reproduce the unselected result, and vice versa the object must not remember
     # the previous selection
@@ -490,7 +732,27 @@ def check_relaxation(case):
             df2 = dyn.relaxation(qconst=case["qconst"], condition=None, outputfile="")
         compare_rows("relaxation(no selection, 2nd call after a selection)", table("relaxation 2nd", df2, T), rows0,
                      tref, new_stats())
-    return {"nontrivial": is_nontrivial(case, rows), "tags": common_tags(case, rows, stats),
+    held.append(("second call", df2, frame_copy(df2)))
+    # third call: the first arguments again (second evaluation of the same request on the same object)
+    with np.errstate(all="ignore"):
+        df3 = dyn.relaxation(qconst=case["qconst"], condition=None if case["cond"] is None else case["cond"].copy(),
+                             outputfile="")
+    compare_rows("relaxation(3rd call, arguments of the 1st)", table("relaxation 3rd", df3, T), rows, tref, new_stats())
+    held.append(("third call", df3, frame_copy(df3)))
+    return _finish_relaxation(case, dyn, rows, stats, held, outname)
+
+
+def _finish_relaxation(case, dyn, rows, stats, held, outname):
+    # results handed out earlier are still what they were (EXTENSION_3 class 3)
+    for what, frame, snap in held:
+        require(frame_unchanged(frame, snap), f"the DataFrame returned by the {what} of relaxation() changed after later calls")
+    tags = common_tags(case, rows, stats)
+    if outname:
+        tags.append("outputfile-written")
+    if case.get("defaults"):
+        tags += ["default-omitted:" + k for k in sorted(set(dyn.verif_omitted))]
+        tags.append("some-default-omitted" if dyn.verif_omitted else "no-default-applicable")
+    return {"nontrivial": is_nontrivial(case, rows), "tags": tags,
             "extra": {"ambiguous_particles": sum(r["namb"] for r in rows), "rows_checked": len(rows) - stats["tie_rows"]}}
 
 
@@ -554,12 +816,18 @@ def sq4_reference(case, rel=1e-9, err=None):
                       case["numofq"], sel=case["cond"], err=err, rel=rel)
 
 
-def run_sq4(case, dyn=None):
+def run_sq4(case, dyn=None, outputfile=""):
     dyn = dyn or make_dynamics(case)
     cond = case["cond"]
     if cond is not None:
         cond = cond.astype(float) if case["cond_float"] else cond.copy()
-    return dyn.sq4(t=case["t"], qrange=case["qrange"], condition=cond, outputfile="")
+    kw = {"t": case["t"], "qrange": case["qrange"], "condition": cond, "outputfile": outputfile}
+    if case.get("defaults"):
+        if cond is None:
+            del kw["condition"]
+        if outputfile == "":
+            del kw["outputfile"]
+    return dyn.sq4(**kw)
 
 
 def compare_sq4(name, out, ref):
@@ -586,9 +854,23 @@ def check_sq4(case):
     if ref["namb"] or ref["q_ambiguous"]:
         tags.append("skipped-amb" if ref["namb"] else "skipped-q-amb")
         return {"nontrivial": False, "tags": tags}
+    outname = "c06_sq4.csv" if case.get("outfile") else ""
+    dyn = make_dynamics(case)
     with np.errstate(all="ignore"):
-        out = run_sq4(case)
+        out = run_sq4(case, dyn, outname)
     compare_sq4("sq4", out, ref)
+    keep = frame_copy(out)
+    if outname:
+        tags.append("outputfile-written")
+        compare_csv("sq4 outputfile", os.path.join(os.getcwd(), outname),
+                    {c: np.asarray(out[c], dtype=float) for c in ("q", "Sq")}, ["q", "Sq"])
+    if not case.get("single_call"):
+        # second evaluation on the same object (EXTENSION_2 class 6) and the frame handed out first stays what it was
+        with np.errstate(all="ignore"):
+            out2 = run_sq4(case, dyn)
+        compare_sq4("sq4 (2nd call on the same object)", out2, ref)
+        require(frame_unchanged(out, keep), "the DataFrame returned by the first sq4() changed after a second call")
+    tags.append("t-" + case.get("tform", "product"))
     N = len(case["types"])
     partial = any(0 < n < N for n in ref["nsub"])
     tags.append("subset-partial" if partial else "subset-all")
@@ -602,11 +884,12 @@ def check_crisp(case):
     """Everything is exact in binary: the reference decides with zero margin."""
     T = len(case["pos"])
     sigma = sigma_of(case)
-    tags = [f"d{case['d']}", case["cal_type"], "mode-" + case["mode"], f"T{T}"]
+    tags = [f"d{case['d']}", case["cal_type"], "mode-" + case["mode"], f"T{T}",
+            "argrep-" + (case.get("argrep") or "none")]
     on_threshold = 0
     for variant in ("lin", "log"):
         log = variant == "log"
-        rows = dynref.relaxation(make_traj(case, "xu"), sigma, case["qconst"], case["a"], case["cal_type"], log=log,
+        rows = dynref.relaxation(make_traj(case), sigma, case["qconst"], case["a"], case["cal_type"], log=log,
                                  err=0.0, rel=0.0)
         tref = dynref.time_axis_linear(case["timesteps"], case["dtmd"])
         dyn = make_dynamics(case, variant=variant)
@@ -614,7 +897,7 @@ def check_crisp(case):
             df = dyn.relaxation(qconst=case["qconst"], condition=None, outputfile="")
         compare_rows(f"crisp relaxation [{variant}]", table(f"crisp {variant}", df, T), rows, tref, new_stats())
     # exact ties present?
-    trj = make_traj(case, "xu")
+    trj = make_traj(case)
     for o in range(T - 1):
         vec, _ = trj.pair(o, o + 1)
         on_threshold += int(np.sum((vec ** 2).sum(axis=1) == (case["a"] * sigma) ** 2))
@@ -644,9 +927,298 @@ def describe(case):
     return out
 
 
+
+# ----------------------------------------------------------------------------- size boundaries (EXTENSION_3 class 1)
+
+# around every block size B: B-1, B, B+1, 2B-1, 2B+1, B + B//3
+SIZE_BLOCKS = {
+    "N": {False: [32, 50, 64, 100, 128, 200, 256], True: [500, 512, 1000, 1024]},      # particles (relaxation)
+    "T": {False: [32, 50, 64], True: [100, 128, 200]},                                    # frames (relaxation)
+    "cn": {False: [32, 64], True: [100, 128]},                                            # neighbours per particle
+    "sq4-N": {False: [32, 50, 64, 100, 128, 200, 256], True: [500, 512, 1000]},          # particles (sq4)
+    "sq4-T": {False: [32, 50, 64], True: [100, 128, 200, 256]},                           # frames / origins (sq4)
+}
+
+
+def boundary_values(blocks):
+    return sorted({v for B in blocks for v in (B - 1, B, B + 1, 2 * B - 1, 2 * B + 1, B + B // 3)})
+
+
+@st.composite
+def size_spec_st(draw, deep=False):
+    """A small picklable SPEC; the trajectory is built in the check from the drawn seed (the entropy of hundreds of
+    coordinates does not fit Hypothesis' buffer).  One size axis sits on a block boundary, the others stay small."""
+    axis = draw(st.sampled_from(["N", "N", "N", "T", "T", "cn", "sq4-N", "sq4-N", "sq4-T", "sq4-M"]))
+    sq4 = axis.startswith("sq4")
+    d = draw(st.sampled_from([2, 3]))
+    K = draw(st.integers(1, 3))
+    spec = {"axis": axis, "deep": bool(deep), "d": d, "K": K, "seed": draw(st.integers(0, 2 ** 32 - 1)),
+            "cell": draw(cell_st(d, "ortho" if sq4 else draw(st.sampled_from(["ortho", "tri"])), lmin=2.0, lmax=30.0)),
+            "kind": draw(st.sampled_from(KINDS)), "amp": draw(st.sampled_from(AMPS)),
+            "mode": draw(st.sampled_from(["xu", "x", "both"])), "cal_type": draw(st.sampled_from(["slow", "fast"])),
+            "variant": "lin" if sq4 else draw(st.sampled_from(["lin", "lin", "log"])),
+            "selmode": draw(st.sampled_from(["none", "none", "const", "equal", "free"])),
+            "nb": draw(st.sampled_from([False, True])), "nbshape": draw(st.sampled_from(["ragged", "ragged", "fixed-k", "ends-full"])),
+            "unit_sigma": draw(st.booleans()), "interval": draw(st.sampled_from([1, 50, 100, 1000, 2500])),
+            "dtmd": draw(st.sampled_from([0.002, 0.002, 0.005, 0.001, 0.01])),
+            "qconst": draw(st.sampled_from([2 * np.pi, 2 * np.pi, 7.25, 3.5])),
+            "aq": draw(st.sampled_from([0.1, 0.3, 0.5, 0.5, 0.7, 0.9])),   # quantile of the realised ratios for a^2
+            "ppp": draw(ppp_st(d)), "outfile": draw(st.sampled_from([False, False, True])),
+            "defaults": draw(st.sampled_from([False, False, True])), "cmax": 5, "size": None}
+    def pick(values):
+        # uniform over the boundary values (st.sampled_from visits a long list unevenly): index from numpy's generator
+        # seeded with the Hypothesis-drawn seed
+        return values[int(np.random.default_rng([spec["seed"], 6]).integers(len(values)))]
+
+    if axis in ("N", "sq4-N"):
+        spec["size"] = spec["N"] = pick(boundary_values(SIZE_BLOCKS[axis][deep]))
+        spec["T"] = draw(st.integers(2, 4))
+        if draw(st.booleans()):
+            # every particle counts (no selection; sq4: the cut-off beyond / below every realised displacement of the
+            # sampled pairs): the size of the evaluated subset itself sits on the boundary
+            spec["selmode"] = "none"
+            if axis == "sq4-N":
+                spec["aq"] = "all"
+    elif axis in ("T", "sq4-T"):
+        spec["size"] = spec["T"] = pick(boundary_values(SIZE_BLOCKS[axis][deep]))
+        spec["N"] = draw(st.integers(max(2, K), 6))
+        if axis == "T" and spec["nb"]:
+            spec["nb"] = draw(st.integers(0, 2)) == 0
+    elif axis == "cn":
+        spec["size"] = spec["cmax"] = pick(boundary_values(SIZE_BLOCKS["cn"][deep]))
+        spec["N"] = spec["cmax"] + draw(st.integers(1, 8))
+        spec["T"] = draw(st.integers(2, 3))
+        spec["nb"] = True
+    else:  # sq4-M: many wave vectors
+        spec["N"] = draw(st.integers(max(2, K), 8))
+        spec["T"] = draw(st.integers(2, 4))
+    if spec["mode"] == "x" and not spec["ppp"].any():
+        spec["ppp"] = np.ones(d, dtype=int)
+    if spec["variant"] == "log" and spec["selmode"] not in ("none", "const"):
+        spec["selmode"] = "const"
+    if sq4:
+        spec["lag"] = draw(st.integers(1, min(3, spec["T"] - 1)))
+        if axis == "sq4-M":
+            top = ((20, 40) if d == 2 else (10, 14)) if not deep else ((40, 100) if d == 2 else (14, 24))
+            spec["numofq"] = spec["size"] = draw(st.integers(*top))
+        else:
+            spec["numofq"] = draw(st.integers(2, 6 if d == 2 else 4))
+        spec["tdelta"] = draw(st.sampled_from([0.0, 0.0, -0.4, 0.4, 0.25]))
+        spec["tform"] = draw(st.sampled_from(["product", "decimal"]))
+        spec["cond_float"] = draw(st.booleans())
+    return spec
+
+
+def build_size_case(spec):
+    """The full case dict (same keys as case_st) of a size spec; deterministic in the spec."""
+    rng = np.random.default_rng(spec["seed"])
+    d, K, N, T = spec["d"], spec["K"], spec["N"], spec["T"]
+    cell = spec["cell"]
+    H, lo = cell["H"], cell["lo"]
+    Lmin = float(np.diag(H).min())
+    types = rng.permutation(np.concatenate([np.arange(1, K + 1), rng.integers(1, K + 1, N - K)]).astype(int))
+    sig = {k: 1.0 for k in range(1, K + 1)} if spec["unit_sigma"] else \
+        {k: float(rng.choice([0.5, 0.75, 0.8, 1.0, 1.25, 1.4, 2.0])) for k in range(1, K + 1)}
+    f0 = rng.random((N, d))
+    vel = rng.uniform(-1.0, 1.0, (N, d))
+    noise = rng.uniform(-1.0, 1.0, (T - 1, N, d))
+    pk = rng.integers(0, 4, N)
+    step = spec["amp"] * Lmin * min(1.0, 8.0 / T)  # long trajectories: the same overall excursion
+    disp = build_disp(spec["kind"], T, vel, noise, pk, step)
+    pos0 = lo + f0 @ H
+    pos = [pos0 + disp[t] for t in range(T)]
+    ppp = np.asarray(spec["ppp"])
+    posw = []
+    for p_ in pos:
+        f = geom.frac_coords(p_ - lo, H)
+        posw.append(lo + (f - np.floor(f) * ppp) @ H)
+    timesteps = [1000 + k * spec["interval"] for k in range(T)]
+    if spec["variant"] == "log":
+        timesteps = [1000] + (1000 + np.cumsum(rng.integers(1, 4000, T - 1))).tolist()
+    # selection
+    selmode, cond = spec["selmode"], None
+    if selmode != "none":
+        rows_ = 1 if spec["variant"] == "log" else T
+        keys = rng.random((rows_, N))
+        if selmode == "const":
+            keys[:] = keys[0]
+        cnts = rng.integers(1, N + 1, rows_) if selmode == "free" else np.full(rows_, rng.integers(1, N + 1))
+        cond = np.zeros((rows_, N), dtype=bool)
+        for r_ in range(rows_):
+            cond[r_, np.argsort(keys[r_])[:cnts[r_]]] = True
+        if spec["variant"] == "log":
+            cond = cond[0]
+    # neighbour file
+    nb = None
+    if spec["nb"] and N >= 2:
+        cmax = min(N - 1, spec["cmax"])
+        frames = T
+        lists = []
+        for _ in range(frames):
+            if spec["nbshape"] == "fixed-k":
+                cn = np.full(N, cmax)
+            else:
+                cn = rng.integers(1, cmax + 1, N)
+                cn[rng.integers(0, N)] = cmax
+                if spec["nbshape"] == "ends-full":
+                    cn[0] = cn[-1] = cmax
+            fr = []
+            for i in range(N):
+                others = np.delete(np.arange(N), i)
+                fr.append([int(j) for j in rng.permutation(others)[:cn[i]]])
+            lists.append(fr)
+        maxcn = max(len(l_) for fr in lists for l_ in fr)
+        nb = {"lists": lists, "roworder": [list(range(N)) if rng.random() < 0.5 else rng.permutation(N).tolist()
+                                           for _ in range(frames)],
+              "max_neighbors": int(rng.choice([maxcn, maxcn + 1, max(maxcn, 30), 200])), "same": False,
+              "shape": spec["nbshape"], "sep": " "}
+    case = {"d": d, "cell": cell, "pos": pos, "posw": posw, "types": types, "timesteps": timesteps, "ppp": ppp, "K": K,
+            "kind": spec["kind"], "amp": spec["amp"], "mode": spec["mode"], "dtmd": spec["dtmd"], "sig": sig,
+            "labmode": "1..K", "cal_type": spec["cal_type"], "cond": cond, "selmode": selmode, "nb": nb,
+            "variant": spec["variant"], "bounded": False, "max_neighbors": nb["max_neighbors"] if nb else 30,
+            "nbarg": "", "qconst": spec["qconst"], "outfile": spec["outfile"], "defaults": spec["defaults"],
+            "single_call": spec["axis"] in ("T", "sq4-T")}
+    # cut-off factor: a quantile of the realised squared ratios of a few frame pairs.  It need not sit in a gap: a
+    # particle within 1e-9 of the threshold is treated as ambiguous by the reference (interval rule).
+    sigma = sigma_of(case)
+    trj = make_traj(case)
+    lag = spec.get("lag", 1)
+    pairs = [(o, o + lag) for o in sorted({0, (T - 1 - lag) // 2, T - 1 - lag})]
+    rat = np.concatenate([(trj.pair(o, e)[0] ** 2).sum(axis=1) / sigma ** 2 for o, e in pairs])
+    rat = np.sort(rat)
+    if spec["aq"] == "all":
+        a2 = 2.0 * rat[-1] + 0.09 if spec["cal_type"] == "slow" else 0.5 * rat[0]
+    else:
+        k_ = min(int(spec["aq"] * len(rat)), len(rat) - 2)
+        a2 = 0.5 * (rat[k_] + rat[k_ + 1]) if len(rat) >= 2 else 2.0 * rat[0] + 0.09
+    if not a2 > 0.0:
+        a2 = 0.09
+    case["a"] = float(np.sqrt(a2))
+    if spec["axis"].startswith("sq4"):
+        Lmax = float(np.diag(H).max())
+        t = (lag + spec["tdelta"]) * ((timesteps[1] - timesteps[0]) * spec["dtmd"])
+        if spec["tform"] == "decimal":
+            t = round(t, 10)
+        case.update(lag=lag, numofq=spec["numofq"], qrange=(spec["numofq"] + 0.5) * np.pi / Lmax, tdelta=spec["tdelta"],
+                    tform=spec["tform"], t=t, cond_float=spec["cond_float"])
+        if case["cond"] is not None and case["cond"].ndim == 1:
+            case["cond"] = np.tile(case["cond"], (T, 1))
+    return case
+
+
+def check_size(spec):
+    case = build_size_case(spec)
+    axis = spec["axis"]
+    info = check_sq4(case) if axis.startswith("sq4") else check_relaxation(case)
+    keep = ("d2", "d3", "ortho", "tri", "mode-", "slow", "fast", "K", "sel-", "nb-file", "nb-none", "cn-", "skipped",
+            "outputfile", "some-default", "subset-", "amb", "tie", "kind-", "origins", "t-")
+    info["tags"] = [t for t in info["tags"] if t.startswith(keep)]
+    info["tags"] += [f"size-axis-{axis}", "variant-" + spec["variant"]]
+    if spec["aq"] == "all":
+        info["tags"].append("sq4-subset=N-at-origin-0")
+    if axis == "sq4-M":
+        nv = (info.get("extra") or {}).get("wave_vectors", 0)
+        info["tags"].append("sq4-vectors" + ("<=100" if nv <= 100 else ("<=400" if nv <= 400 else ">400")))
+    else:
+        info["tags"].append(f"size-boundary-{axis}={spec['size']}")
+        b = [b_ for b_ in SIZE_BLOCKS[axis][spec["deep"]]
+             if spec["size"] in (b_ - 1, b_, b_ + 1, 2 * b_ - 1, 2 * b_ + 1, b_ + b_ // 3)][0]
+        s_ = spec["size"]
+        info["tags"].append("size-" + ("B-1" if s_ == b - 1 else "B" if s_ == b else "B+1" if s_ == b + 1 else
+                                       "2B-1" if s_ == 2 * b - 1 else "2B+1" if s_ == 2 * b + 1 else "B+B//3"))
+    skipped = any(t.startswith("skipped") for t in info["tags"])
+    info["nontrivial"] = not skipped
+    return info
+
+
+def describe_size(spec):
+    out = {k: (v.tolist() if isinstance(v, np.ndarray) else v) for k, v in spec.items() if k != "cell"}
+    out["H"] = np.round(spec["cell"]["H"], 4).tolist()
+    return out
+
+
+# ----------------------------------------------------------------------------- call histories on live objects
+
+
+@st.composite
+def history_st(draw):
+    """Two trajectories of the SAME shapes (N, T, d, K) with different coordinates -> two Dynamics objects; a drawn
+    sequence of calls on them.  EXTENSION_3 class 3 / EXTENSION_2 class 6."""
+    base = draw(case_st("lin", cage="maybe", cells=("ortho",), sq4=True, tmax=5, nmax=8))
+    # the second trajectory: same particles, box, times and neighbour file, every displacement scaled (other numbers in
+    # arrays of exactly the same shapes).  The cut-off was placed for the first one: threshold decisions of the second
+    # fall under the reference's interval rule where they come close, empty mobile subsets skip that sq4 call.
+    fac = draw(st.sampled_from([0.37, 0.6, 1.7, -1.0]))
+    other = dict(base)
+    p0 = base["pos"][0]
+    other["pos"] = [p0 + fac * (p_ - p0) for p_ in base["pos"]]
+    H, lo, ppp = base["cell"]["H"], base["cell"]["lo"], base["ppp"]
+    other["posw"] = []
+    for p_ in other["pos"]:
+        f = geom.frac_coords(p_ - lo, H)
+        other["posw"].append(lo + (f - np.floor(f) * ppp) @ H)
+    ops = draw(st.lists(st.tuples(st.sampled_from([0, 0, 1]),
+                                  st.sampled_from(["relax", "relax", "relax-qconst", "relax-nosel", "sq4", "sq4", "sq4-lag"])),
+                        min_size=3, max_size=7))
+    return {"a": base, "b": other, "ops": ops}
+
+
+def check_history(case):
+    subs = [case["a"], case["b"]]
+    dyns = [make_dynamics(c_) for c_ in subs]
+    held = []
+    counts = {"relax": 0, "sq4": 0}
+    used = set()
+    for k, (which, op) in enumerate(case["ops"]):
+        c_ = subs[which]
+        dyn = dyns[which]
+        used.add(which)
+        T = len(c_["pos"])
+        sigma = sigma_of(c_)
+        err = coordinate_error(c_, c_["mode"])
+        what = f"call {k + 1} ({op} on object {'AB'[which]})"
+        if op.startswith("relax"):
+            qc = c_["qconst"] if op != "relax-qconst" else 0.5 * c_["qconst"] + 1.0
+            cond = None if op == "relax-nosel" or c_["cond"] is None else c_["cond"].copy()
+            rows = dynref.relaxation(make_traj(c_), sigma, qc, c_["a"], c_["cal_type"], sel=cond, log=False, err=err)
+            with np.errstate(all="ignore"):
+                df = dyn.relaxation(qconst=qc, condition=cond, outputfile="")
+            compare_rows(what, table(what, df, T), rows, dynref.time_axis_linear(c_["timesteps"], c_["dtmd"]), new_stats())
+            counts["relax"] += 1
+        else:
+            cc = dict(c_)
+            if op == "sq4-lag" and T >= 3:
+                cc["lag"] = 1 + c_["lag"] % (T - 1)
+                cc["t"] = cc["lag"] * ((c_["timesteps"][1] - c_["timesteps"][0]) * c_["dtmd"])
+            ref = sq4_reference(cc)
+            if ref["empty"] or ref["namb"] or ref["q_ambiguous"]:
+                continue
+            with np.errstate(all="ignore"):
+                df = run_sq4(cc, dyn)
+            compare_sq4(what, df, ref)
+            counts["sq4"] += 1
+        held.append((what, df, frame_copy(df)))
+    for what, df, snap in held:
+        require(frame_unchanged(df, snap),
+                lambda what=what: f"the DataFrame returned by {what} changed after it was handed out "
+                                  f"({len(held)} results alive)")
+    shapes = [h[2][1].shape for h in held]
+    tags = [f"results-held={min(len(held), 7)}", f"objects-used={len(used)}"]
+    if len(shapes) > len(set(shapes)):
+        tags.append("held-results-of-equal-shape")
+    if counts["relax"] and counts["sq4"]:
+        tags.append("relaxation-and-sq4-interleaved")
+    tags += ["nb-file" if case["a"]["nb"] is not None else "nb-none", "mode-" + case["a"]["mode"]]
+    return {"nontrivial": len(held) >= 3, "tags": tags, "extra": {"calls": len(held)}}
+
+
+def describe_history(case):
+    return {"ops": case["ops"], "a": describe(case["a"]), "b": describe(case["b"])}
+
+
 NT = "non-trivial as in RULE"
 FACETS = [
-    Facet("linear", case_st("lin", cage="no"), check_relaxation, quick=900, thorough=40000, describe=describe,
+    Facet("linear", case_st("lin", cage="no", nmin=1), check_relaxation, quick=900, thorough=40000, describe=describe,
           shards_quick=3, rule="Dynamics.relaxation, no neighbour file; " + NT),
     Facet("linear_cage", case_st("lin", cage="yes"), check_relaxation, quick=600, thorough=30000, describe=describe,
           shards_quick=3, rule="Dynamics.relaxation with a multi-frame neighbour file; " + NT),
@@ -662,4 +1234,18 @@ FACETS = [
                "and (>= 2 origins or a selection)"),
     Facet("crisp", crisp_st(), check_crisp, quick=400, thorough=20000, describe=describe,
           rule="exact arithmetic; non-trivial = some particle's squared lag-1 displacement equals the squared cut-off"),
+    Facet("size_boundaries", size_spec_st(), check_size, quick=800, quick_budget_s=150.0, thorough=8000, describe=describe_size, shards_quick=4,
+          rule="one size axis on a block boundary B-1, B, B+1, 2B-1, 2B+1, B+B//3: particles N = 31..513 (relaxation, "
+               "both classes, with / without a neighbour file, and sq4), frames T = 31..129 (relaxation: all T(T-1)/2 "
+               "frame pairs; sq4: all origins), neighbours per particle up to 31..129 (cage-relative), or sq4 with "
+               "hundreds of wave vectors; same references and tolerances as linear / log / sq4; non-trivial = compared"),
+    Facet("size_boundaries_deep", size_spec_st(deep=True), check_size, quick=0, thorough=700, describe=describe_size,
+          rule="thorough tier only: N around 500, 512, 1000, 1024; T around 100, 128, 200 (up to 401 frames = 80 200 "
+               "frame pairs); cn around 100, 128; sq4 with numofq up to 100 (2D) / 24 (3D)"),
+    Facet("call_history", history_st(), check_history, quick=300, thorough=8000, describe=describe_history,
+          shards_quick=2,
+          rule="two Dynamics objects on same-shaped trajectories; 3..7 drawn calls (relaxation with / without the "
+               "selection, another qconst; sq4 at the drawn and another lag) alternating between them; every result "
+               "equals its reference at call time and ALL returned DataFrames, kept alive, are bit-identical to their "
+               "copies at the end; non-trivial = at least three results held"),
 ]
